@@ -49,12 +49,28 @@ theorem C03_layout :
 
 /-! ### the timestamp -/
 
+theorem shape_eval (e : EExpr) (a b : Nat) (h : e.shape = some (a, b)) (s n : Nat) : e.eval s n = s * a + n / b := by
+  unfold EExpr.shape at h
+  split at h
+  all_goals first
+    | (cases h; simp only [EExpr.eval]; done)
+    | (cases h; simp only [EExpr.eval]; rw [Nat.mul_comm a s]; done)
+    | (cases h; simp only [EExpr.eval]; rw [Nat.add_comm]; done)
+    | (cases h; simp only [EExpr.eval]; rw [Nat.add_comm, Nat.mul_comm a s]; done)
+    | (cases h; done)
+
+/-- the regenerated return expression of `libwifi_get_epoch` is `sec * 1000000 + nsec / 1000`, up to the
+order of the operands of `+` and `*` -/
 theorem epoch_us (t : Timespec) : epoch t = (t.sec * 1000000000 + t.nsec) / 1000 := by
-  have h : Gen.epochExpr = some (.add (.mul .sec (.lit 1000000)) (.div .nsec (.lit 1000))) := by decide
+  have h : Gen.epochExpr.bind EExpr.shape = some (1000000, 1000) := by decide
   unfold epoch
-  rw [h]
-  simp only [EExpr.eval]
-  omega
+  cases he : Gen.epochExpr with
+  | none => simp [he] at h
+  | some e =>
+    simp only [he, Option.bind_some] at h
+    show e.eval t.sec t.nsec = _
+    rw [shape_eval e _ _ h]
+    omega
 
 /-! ### fixed fields -/
 
